@@ -180,21 +180,8 @@ def run_shard(params, rec):
         spec = ic.BY_NAME[name]
         walk = (params["part"], params["nparts"], params.get("walk_rounds", 1), params.get("walk_stride", 1))
         batch = []
-        prev = None
         for data, origin in ic.stream(spec, rng, params["seed"] * 64 + params["shard"], n, walk):
             instr, err = ic.decode(spec, data, 0)
-            first = ic.FIRST_DECODE[0]
-            if (first is None) != (instr is None) or (instr is not None and first.l != instr.l):
-                # the same bytes decoded twice in a row give two lengths / validities: at most one
-                # of them can agree with a reference disassembler
-                rec.count("%s:history_dependent" % spec.name)
-                rec.fail("%s history_dependent_decode" % spec.family,
-                         "decoding %s right after %s gives %s, decoding it again gives %s" % (
-                             ic.hexs(data), ic.hexs(prev) if prev else "-",
-                             "length %d (%s)" % (first.l, first.name) if first is not None else "no instruction",
-                             "length %d (%s)" % (instr.l, instr.name) if instr is not None else "no instruction"),
-                         dict(arch=spec.name, bytes=ic.hexs(data), previous=ic.hexs(prev) if prev else None))
-            prev = data
             if instr is None:
                 rec.count("%s:undecodable" % spec.name)
                 if err not in ("Disasm_Exception", "IOError", "no_instr"):
